@@ -522,9 +522,9 @@ func decodedDiff(a, b *sandbox.Snap) string {
 
 func runFaultProp(c *core.Ctx) {
 	corpus := scenarioCorpus()
-	nRand := c.Pick(40, 1200)
+	nRand := c.Pick(200, 2000)
 	if c.Prop == "C16" {
-		nRand = c.Pick(24, 800)
+		nRand = c.Pick(100, 1200)
 	}
 	total := len(corpus) + nRand
 	c.RunHistories(total, func() []core.Monitor { return nil }, func(w *core.World) {
